@@ -61,6 +61,23 @@ Theorem c10_every_endpoint_closed_refuted_under_interleaving :
   option_map LifecycleI.v_leak (LifecycleIP.irun (LifecycleI.ientered true) (removelast LifecycleIP.w_k11_overwrite)) = Some false.
 Proof. exact LifecycleIP.k11_witnesses. Qed.
 
+(* the FACADE tasks under every schedule: no facade whose tasks are alive is ever dropped (self._facade cleared or overwritten) without
+   disconnect() - in particular not when a reset is suspended in its RUNNING_SPA_DISCONNECTED handler while the connection completes and the
+   pump creates the facade (K13, repaired: the extracted fact reset_disconnects_facade_last; without it this theorem fails) - and the tasks
+   of a facade are alive only while the manager references it *)
+Theorem c10_interleaved_no_facade_dropped_alive :
+  forall c ls s, LifecycleIP.irun (LifecycleI.ientered c) ls = Some s ->
+    LifecycleI.v_fleak s = false /\ (LifecycleI.fac_live s = true -> fac (LifecycleI.gs s) = true).
+Proof. exact LifecycleIP.no_facade_dropped_alive. Qed.
+(* non-vacuity: the K13 schedule is a schedule of the machine; before its last step the manager is CONNECTED with a live facade that was
+   created after the reset began, after it the manager is IDLE, nothing is alive and nothing was dropped *)
+Example c10_k13_schedule :
+  option_map (fun s => (LifecycleI.fac_live s, LifecycleI.v_fleak s, fac (LifecycleI.gs s), sstate_eqb (st (LifecycleI.gs s)) IDLE))
+             (LifecycleIP.irun (LifecycleI.ientered true) LifecycleIP.w_k13) = Some (false, false, false, true) /\
+  option_map (fun s => (LifecycleI.fac_live s, fac (LifecycleI.gs s), sstate_eqb (st (LifecycleI.gs s)) CONNECTED))
+             (LifecycleIP.irun (LifecycleI.ientered true) (removelast LifecycleIP.w_k13)) = Some (true, true, true).
+Proof. exact LifecycleIP.k13_schedule_runs_and_is_clean. Qed.
+
 Example c10_nonvacuous :
   existsb (fun x => match ppc (fst x) with PConn 2 => true | _ => false end) reachL = true /\
   existsb (fun x => in_loc (fst x) && Nat.eqb (eps (snd x)) 1) reachL = true /\
